@@ -128,7 +128,9 @@ Inductive spec : Type :=
 | SNone                               (* correspondence only *)
 | SIll (fmt : nat) (opt : str)        (* an ill-typed value for [opt] in format 0 md / 1 toml / 2 config:
                                          must be rejected with a message naming the option *)
-| SUnk (fmt : nat) (key : str).       (* an unknown key: reported, run not aborted *)
+| SUnk (fmt : nat) (key : str)        (* an unknown key: reported, run not aborted *)
+| SCli (clionly : iout).              (* every field set on the command line has the value that the
+                                         command line alone produces *)
 
 Record rcase := mkr { r_in : input; r_out : iout; r_spec : spec }.
 
@@ -164,6 +166,17 @@ Definition judge_raw (c : rcase) : nat :=
     | SUnk fmt key =>
       let ok := match r_out c with IOk _ w => sin key w | IErr _ _ => false end in
       verdict mismatch (negb ok) (if ok then 0 else unk_region fmt)
+    | SCli only =>
+      let ok := match r_out c, only with
+                | IOk _ _, IOk _ _ =>
+                  forallb (fun kv => match field_ty (fst kv) with
+                                     | Some _ => opt_eqb pv_eqb (out_field base (fst kv) (r_out c))
+                                                                (out_field base (fst kv) only)
+                                     | None => true
+                                     end) (i_cli i)
+                | _, _ => true
+                end in
+      verdict mismatch (negb ok) 0
     end.
 
 (* full comparison of the no-option run (the base every diff refers to) *)
